@@ -103,3 +103,39 @@ package state
 //@ iface 0chain.net/chaincore/chain/state.StateContextI.GetSignatureScheme
 //@   params self
 //@   pure
+
+// ---------------------------------------------------------------- the implementation (*StateContext)
+
+//@ spec queuedOK(sc *StateContext) bool = sc != nil && sc.mutex != nil && (forall i in 0..len(sc.transfers) :: sc.transfers[i] != nil)
+
+// Queuing a transfer appends it and leaves every transfer queued earlier exactly as it was
+// (same order, same parties, same amounts); a rejected transfer queues nothing.  (C04, C05)
+//@ func (*StateContext).AddTransfer
+//@   prop C05, C04
+//@   requires queuedOK(sc) && t != nil && held(sc.mutex) == 0
+//@   ensures[appended] result == nil ==> len(sc.transfers) == old(len(sc.transfers)) + 1 && sc.transfers[old(len(sc.transfers))] == t
+//@   ensures[earlier-kept] forall i in 0..old(len(sc.transfers)) :: sc.transfers[i] == old(sc.transfers[i])
+//@   ensures[earlier-unaltered] forall i in 0..old(len(sc.transfers)) :: sc.transfers[i].Amount == old(sc.transfers[i].Amount) && sc.transfers[i].ClientID == old(sc.transfers[i].ClientID) && sc.transfers[i].ToClientID == old(sc.transfers[i].ToClientID)
+//@   ensures[argument-unaltered] t.Amount == old(t.Amount) && t.ClientID == old(t.ClientID) && t.ToClientID == old(t.ToClientID)
+//@   ensures[rejected-queues-nothing] result != nil ==> len(sc.transfers) == old(len(sc.transfers))
+//@   ensures len(sc.signedTransfers) == old(len(sc.signedTransfers))
+//@   lock-balanced sc.mutex
+
+//@ func (*StateContext).AddSignedTransfer
+//@   prop C04
+//@   requires sc != nil
+//@   ensures len(sc.signedTransfers) == old(len(sc.signedTransfers)) + 1 && sc.signedTransfers[old(len(sc.signedTransfers))] == st
+//@   ensures forall i in 0..old(len(sc.signedTransfers)) :: sc.signedTransfers[i] == old(sc.signedTransfers[i])
+//@   ensures sc.transfers == old(sc.transfers)
+
+//@ func (*StateContext).GetTransfers
+//@   prop C05, C04
+//@   requires sc != nil
+//@   ensures result == sc.transfers
+//@   modifies nothing
+
+//@ func (*StateContext).GetSignedTransfers
+//@   prop C04
+//@   requires sc != nil
+//@   ensures result == sc.signedTransfers
+//@   modifies nothing
